@@ -20,13 +20,13 @@ PROPS = {
              assumptions=["directed-switch targets satisfy the documented preconditions (popped from their pool / observed BLOCKED / TERMINATED); in the chain scenario ABT_thread_yield_to only with a pool served by the calling stream", "scenario yield_to-race goes beyond the documented precondition of ABT_thread_yield_to (target in its pool): other streams may pop the target meanwhile; it relies on the implementation's re-check under the pool lock, which refuses with an error"]),
     "C02": P(160000, 3000000, expect_reach=["c02.resumes", "c02.yield_to", "c02.suspend_to", "c02.resume_yield_to", "c02.exit_to", "c02.create_to", "c02.revive_to"],
              assumptions=["as C11; canaries cover rbx, rbp, r12-r15, MXCSR rounding/masks and the x87 control word"]),
-    "C12": P(160000, 3000000, expect_reach=["cancel.at_pop", "c12.state_transitions_observed", "c12.cancel_before_start", "c12.revives"],
+    "C12": P(160000, 3000000, expect_reach=["cancel.at_pop", "c12.state_transitions_observed", "c12.cancel_before_start", "c12.revives", "c12.self_migration_requests", "mix.revives", "mix.cancels_before_start"],
              assumptions=["one driver per unit issues create/cancel/join/revive/free sequentially (cancel races with the target's execution, not with its own join); the cancel deadline is checked at ABT_thread_yield and at a suspend that is resumed through a pool, not for direct hand-over resumes"]),
-    "C13": P(160000, 3000000, expect_reach=["migrate.at_pop", "migrate.request_handled", "c13.requests_via_xstream_or_sched", "c13.migrate_any_stream_checked", "c13.requests_checked_must_be_honoured", "c13.requests_overlapping_scheduling_point"],
+    "C13": P(160000, 3000000, expect_reach=["migrate.at_pop", "migrate.request_handled", "c13.requests_via_xstream_or_sched", "c13.migrate_any_stream_checked", "c13.sequence_migrations", "c13.sequence_other_moves", "c13.requests_checked_must_be_honoured", "c13.requests_overlapping_scheduling_point"],
              assumptions=["per unit, requests come either from the unit itself or from one issuer, so accepted requests are totally ordered; a request overlapping a scheduling point may be honoured at that point or the next"]),
     "C14": P(160000, 3000000, expect_reach=["unit.tombstone_reused", "c14.translation_queries", "c14.units_created", "c14.handles_recycled", "c14.bulk_rounds"],
              assumptions=["unit handles are crafted integers that all hash to one bucket of the 256-entry table, recycled LIFO in half of the runs; translations are queried only for units that cannot move or be freed meanwhile (the caller's own unit, or a suspended ULT)"]),
-    "C15": P(160000, 3000000, expect_reach=["mempool.new_page", "mempool.bucket_from_global_lifo", "c15.mempool_allocs", "c15.mempool_cross_thread_frees", "c15.ext_frees_of_user_stack_ults", "c15.churn_units", "c15.churn_rounds_finished_on_another_stream"],
+    "C15": P(160000, 3000000, expect_reach=["mempool.new_page", "mempool.bucket_from_global_lifo", "c15.mempool_allocs", "c15.mempool_cross_thread_frees", "c15.ext_frees_of_user_stack_ults", "c15.churn_units", "c15.churn_rounds_finished_on_another_stream", "c15.cancel_requests_to_queued_unnamed_units"],
              assumptions=["the white-box driver uses ABTI_mem_pool_* exactly as abti_mem.h does (one local pool per simulated thread, blocks may be freed to any local pool of the same global pool)",
                           "stack sizes 16 KiB..2 MiB (+50%) in the quick tier, up to 16 MiB in the thorough tier; with stack guards enabled the two lowest pages are not written"]),
     "C16": P(160000, 3000000, expect_reach=["key.chain_append", "key.table_creation_race_lost", "c16.remote_sets_while_owner_runs", "c16.destructor_calls", "c16.revives"],
